@@ -385,6 +385,7 @@ type history struct {
 	eventCount  int
 	events      []evRec
 	reordered   string // table whose columns were permuted
+	failLookups map[string]lookupFault
 	eventLog    []string
 	deliverCh   chan []*replication.BinlogEvent
 	deliverDone chan struct{}
@@ -401,6 +402,7 @@ type history struct {
 	// commit became visible
 	commitInWindow int64
 	inflight       int64 // compute functions entered and not yet returned
+	lookupsFailed  int64 // information_schema lookups failed by the harness
 
 	queries []*liveQuery
 	byID    map[int]*liveQuery
@@ -608,6 +610,51 @@ func (h *history) reorder(table string) {
 	h.run.Count("reorder_done", 1)
 }
 
+// renewTableID gives the table a new table id without changing its shape (what
+// MySQL does when it re-opens a table: FLUSH TABLES, table cache eviction,
+// index-only ALTERs). RunPollLoop then drops its cached column list and reads
+// information_schema again when the next rows event of the table arrives; the
+// harness makes exactly that lookup fail with a connection-type error
+// (driver.ErrBadConn on every retry database/sql makes, or sql.ErrConnDone,
+// which is not retried). The event that hits the failed lookup describes a
+// real commit and must still invalidate the live queries on the table.
+func (h *history) renewTableID(table string, badConn bool) {
+	h.mu.Lock()
+	h.tableIDs[table] += 100
+	if badConn {
+		h.failLookups[table] = lookupFault{left: 3, err: driver.ErrBadConn}
+	} else {
+		h.failLookups[table] = lookupFault{left: 1, err: sql.ErrConnDone}
+	}
+	h.eventLog = append(h.eventLog, fmt.Sprintf("table %s re-opened (new table id); its next column lookup fails with %v", table, h.failLookups[table].err))
+	h.mu.Unlock()
+	h.run.Count("lookup_fault_armed", 1)
+}
+
+type lookupFault struct {
+	left int
+	err  error
+}
+
+// faultHook fails the binlog's information_schema lookups that were armed.
+func (h *history) faultHook(st *fakesql.Stmt) *fakesql.Fault {
+	if st.Table != "information_schema.columns" || len(st.Args) != 2 {
+		return nil
+	}
+	table, _ := st.Args[1].(string)
+	h.mu.Lock()
+	defer h.mu.Unlock()
+	lf := h.failLookups[table]
+	if lf.left == 0 {
+		return nil
+	}
+	lf.left--
+	h.failLookups[table] = lf
+	h.eventLog = append(h.eventLog, fmt.Sprintf("column lookup for %s fails with %v", table, lf.err))
+	atomic.AddInt64(&h.lookupsFailed, 1)
+	return &fakesql.Fault{Err: lf.err}
+}
+
 type writeOp struct {
 	kind  string
 	table string
@@ -695,6 +742,8 @@ func (h *history) apply(ctx context.Context, op writeOp) {
 		h.alter(op.table, op.renew)
 	case "Reorder":
 		h.reorder(op.table)
+	case "RenewTableID":
+		h.renewTableID(op.table, op.renew)
 	case "Tx":
 		txctx, tx, terr := h.db.WithTx(ctx)
 		if terr != nil {
@@ -729,7 +778,7 @@ func runHistory(run *vlib.Run, i int, fixed *fixedPlan) {
 	fmt.Println("CASE history", i)
 	r := run.Rand("history", i)
 	h := &history{run: run, idx: i, r: r, logger: &quietLogger{}, tableIDs: map[string]uint64{}, announced: map[string]uint64{}, staleMap: map[string]bool{},
-		faultAt: map[int]string{}, deliverCh: make(chan []*replication.BinlogEvent, 4096), deliverDone: make(chan struct{}),
+		faultAt: map[int]string{}, failLookups: map[string]lookupFault{}, deliverCh: make(chan []*replication.BinlogEvent, 4096), deliverDone: make(chan struct{}),
 		delayR: rand.New(rand.NewSource(r.Int63())), hookR: rand.New(rand.NewSource(r.Int63())), byID: map[int]*liveQuery{}, forms: map[string]map[string]blForm{}}
 	h.eng = fakesql.New("", database)
 	defer h.eng.Dispose()
@@ -853,6 +902,36 @@ func runHistory(run *vlib.Run, i int, fixed *fixedPlan) {
 		plans[w] = append(plans[w][:at:at], append(mid, plans[w][at:]...)...)
 	}
 
+	var lookupSentinel *liveQuery
+	if fixed == nil && !faulty && schemaChange == "" && r.Intn(4) == 0 {
+		// the table is re-opened (new table id), the column lookup of its next
+		// rows event fails with a connection error, and that event is a write
+		// that changes what a live query on the table returns
+		table := tableNames[r.Intn(len(tableNames))]
+		schemaChange = "lookup-fault"
+		row := genRow(r, table)
+		var write writeOp
+		var fd filterDesc
+		switch x := row.(type) {
+		case *Wide:
+			write = writeOp{kind: "InsertRow", table: table, rows: []interface{}{row}}
+			fd = filterDesc{filter: sqlgen.Filter{"name": x.Name, "i8": x.I8, "u8": x.U8}, reps: map[string]string{"name": "own", "i8": "own", "u8": "own"}}
+		case *Pair:
+			x.N = 41 // a value no other writer produces, so the upsert changes the row
+			write = writeOp{kind: "UpsertRow", table: table, rows: []interface{}{row}}
+			fd = filterDesc{filter: sqlgen.Filter{"a": x.A, "b": x.B}, reps: map[string]string{"a": "own", "b": "own"}}
+		case *Tiny:
+			x.Cnt = 41
+			write = writeOp{kind: "UpsertRow", table: table, rows: []interface{}{row}}
+			fd = filterDesc{filter: sqlgen.Filter{"k": x.K}, reps: map[string]string{"k": "own"}}
+		}
+		lookupSentinel = &liveQuery{table: table, fd: fd}
+		w := r.Intn(nWriters)
+		at := len(plans[w]) - r.Intn(len(plans[w])/3+1) // late: little comes after it
+		mid := []writeOp{{kind: "RenewTableID", table: table, renew: r.Intn(2) == 0}, write}
+		plans[w] = append(plans[w][:at:at], append(mid, plans[w][at:]...)...)
+	}
+
 	// binlog
 	b, push, fail := livesql.NewBinlogForVerif(h.ldb, database)
 	b.SetLogger(h.logger)
@@ -887,6 +966,7 @@ func runHistory(run *vlib.Run, i int, fixed *fixedPlan) {
 			}
 		},
 		OnCommit: h.onCommit,
+		Fault:    h.faultHook,
 	})
 
 	// live queries (all generated before any rerunner starts)
@@ -942,6 +1022,13 @@ func runHistory(run *vlib.Run, i int, fixed *fixedPlan) {
 			h.byID[q.id] = q
 		}
 		perRerunner = append(perRerunner, qs)
+	}
+	if lookupSentinel != nil {
+		qid++
+		lookupSentinel.id = qid
+		h.queries = append(h.queries, lookupSentinel)
+		h.byID[lookupSentinel.id] = lookupSentinel
+		perRerunner = append(perRerunner, []*liveQuery{lookupSentinel})
 	}
 	nRerunners = len(perRerunner)
 	spawn := make([]bool, nRerunners)
@@ -1090,6 +1177,7 @@ func runHistory(run *vlib.Run, i int, fixed *fixedPlan) {
 	run.Count("live_selects_overlapping_a_commit", int(atomic.LoadInt64(&h.commitInWindow)))
 	run.Count("reruns_after_last_delivery", int(rerunsAfter))
 	run.Count("undecodable_events_injected", len(faults))
+	run.Count("column_lookups_failed", int(atomic.LoadInt64(&h.lookupsFailed)))
 	run.Count("decode_failures_logged_by_binlog", len(decodeErrors))
 	run.Count("protocol:"+proto, 1)
 	if schemaChange != "" {
